@@ -43,12 +43,81 @@ type c12simp struct {
 	mls  func(orb.MultiLineString) orb.MultiLineString
 }
 
+// The simplifier types are plain structs with exported, documented fields: a program may take one from a constructor, write
+// it as a literal, or set the fields of one it already has (a long-lived simplifier whose threshold follows the zoom). The
+// configuration at the time of the call is what counts; c12way rotates through the ways of arriving at it.
+var c12way int
+
+func c12mkDP(t float64) *simplify.DouglasPeuckerSimplifier {
+	c12way++
+	switch c12way % 4 {
+	case 0:
+		return simplify.DouglasPeucker(t)
+	case 1:
+		return &simplify.DouglasPeuckerSimplifier{Threshold: t}
+	case 2:
+		s := simplify.DouglasPeucker(t*10 + 3)
+		s.LineString(orb.LineString{{0, 0}, {1, 5}, {2, 0}})
+		s.Threshold = t
+		return s
+	}
+	s := &simplify.DouglasPeuckerSimplifier{}
+	s.Threshold = t
+	return s
+}
+
+func c12mkRadial(df orb.DistanceFunc, t float64) *simplify.RadialSimplifier {
+	c12way++
+	switch c12way % 4 {
+	case 0:
+		return simplify.Radial(df, t)
+	case 1:
+		return &simplify.RadialSimplifier{DistanceFunc: df, Threshold: t}
+	case 2:
+		s := simplify.Radial(func(a, b orb.Point) float64 { return 0 }, t*10+3)
+		s.LineString(orb.LineString{{0, 0}, {1, 5}, {2, 0}})
+		s.Threshold, s.DistanceFunc = t, df
+		return s
+	}
+	s := &simplify.RadialSimplifier{}
+	s.DistanceFunc, s.Threshold = df, t
+	return s
+}
+
+func c12mkVis(t float64, keep int) *simplify.VisvalingamSimplifier {
+	c12way++
+	switch c12way % 5 {
+	case 0:
+		switch {
+		case keep == 0:
+			return simplify.VisvalingamThreshold(t)
+		case t == math.MaxFloat64:
+			return simplify.VisvalingamKeep(keep)
+		}
+		return simplify.Visvalingam(t, keep)
+	case 1:
+		return &simplify.VisvalingamSimplifier{Threshold: t, ToKeep: keep}
+	case 2:
+		s := simplify.Visvalingam(t/7, keep+3)
+		s.LineString(orb.LineString{{0, 0}, {1, 5}, {2, 0}, {3, 5}, {4, 0}})
+		s.Threshold, s.ToKeep = t, keep
+		return s
+	case 3:
+		s := simplify.VisvalingamThreshold(t * 3)
+		s.Threshold, s.ToKeep = t, keep
+		return s
+	}
+	s := simplify.VisvalingamKeep(keep + 1)
+	s.ToKeep, s.Threshold = keep, t
+	return s
+}
+
 func c12dp(t float64) c12simp {
-	s := simplify.DouglasPeucker(t)
+	s := c12mkDP(t)
 	return c12simp{fmt.Sprintf("DouglasPeucker(%g)", t), s, s.LineString, s.Ring, s.Polygon, s.MultiPolygon, s.MultiLineString}
 }
 func c12radial(t float64) c12simp {
-	s := simplify.Radial(planar.Distance, t)
+	s := c12mkRadial(planar.Distance, t)
 	return c12simp{fmt.Sprintf("Radial(%g)", t), s, s.LineString, s.Ring, s.Polygon, s.MultiPolygon, s.MultiLineString}
 }
 func c12vis(s *simplify.VisvalingamSimplifier, name string) c12simp {
@@ -297,7 +366,7 @@ func init() {
 						}
 					}
 					// --- generic entry point on a bare ring (and a ring inside a collection) equals the typed Ring method
-					for _, s := range []c12simp{c12dp(t1), c12radial(t1), c12vis(simplify.VisvalingamThreshold(t2*t2), "VisvalingamThreshold"), c12vis(simplify.Visvalingam(t2*t2, r.Range(2, 6)), "Visvalingam(keep)")} {
+					for _, s := range []c12simp{c12dp(t1), c12radial(t1), c12vis(c12mkVis(t2*t2, 0), "VisvalingamThreshold"), c12vis(c12mkVis(t2*t2, r.Range(2, 6)), "Visvalingam(keep)")} {
 						want := s.ring(orb.Ring(cloneLS(in)))
 						g := s.s.Simplify(orb.Ring(cloneLS(in)))
 						gc := s.s.Simplify(orb.Collection{orb.Ring(cloneLS(in))})
@@ -320,7 +389,7 @@ func init() {
 					for _, rs := range []struct {
 						name string
 						s    *simplify.RadialSimplifier
-					}{{"Radial(planar.DistanceSquared)", simplify.Radial(planar.DistanceSquared, t1*t1)}, {"Radial(geo.Distance)", simplify.Radial(geo.Distance, 100+t1*1000)}} {
+					}{{"Radial(planar.DistanceSquared)", c12mkRadial(planar.DistanceSquared, t1*t1)}, {"Radial(geo.Distance)", c12mkRadial(geo.Distance, 100+t1*1000)}} {
 						lin := cloneLS(in)
 						if rs.name == "Radial(geo.Distance)" {
 							// lon/lat line near the antimeridian / a pole
@@ -394,9 +463,9 @@ func init() {
 						for k, t := range []float64{a1, a2} {
 							var vs *simplify.VisvalingamSimplifier
 							if keep == 0 {
-								vs = simplify.VisvalingamThreshold(t)
+								vs = c12mkVis(t, 0)
 							} else {
-								vs = simplify.Visvalingam(t, keep)
+								vs = c12mkVis(t, keep)
 							}
 							s := c12vis(vs, fmt.Sprintf("Visvalingam(%g,%d)", t, keep))
 							// the same simplifier value sees a line first, then the case's geometry
@@ -426,7 +495,7 @@ func init() {
 						}
 						// keep-N returns exactly N when the input is longer
 						n := r.Range(2, 10)
-						ks := simplify.VisvalingamKeep(n)
+						ks := c12mkVis(math.MaxFloat64, n)
 						var out orb.LineString
 						if asRing {
 							out = orb.LineString(ks.Ring(orb.Ring(cloneLS(in))))
@@ -468,7 +537,7 @@ func init() {
 					}
 					t := c12threshold(r, orb.LineString(mp[0][0]))
 					var sims []c12simp
-					sims = append(sims, c12dp(t), c12radial(t), c12vis(simplify.VisvalingamThreshold(t*t), fmt.Sprintf("VisvalingamThreshold(%g)", t*t)), c12vis(simplify.VisvalingamKeep(r.Range(2, 6)), "VisvalingamKeep"))
+					sims = append(sims, c12dp(t), c12radial(t), c12vis(c12mkVis(t*t, 0), fmt.Sprintf("VisvalingamThreshold(%g)", t*t)), c12vis(c12mkVis(math.MaxFloat64, r.Range(2, 6)), "VisvalingamKeep"))
 					for _, s := range sims {
 						// expected by composition of the ring method
 						var exp orb.MultiPolygon
